@@ -8,6 +8,7 @@ Request grammar (all numbers are exact `m:e` tokens):
 
     c04.eval <eps> <PROG> <ENV>
     c04.grad <eps> <PROG> <ENV> <VEC>                      -- model backprop, cotangent VEC
+    c04.jabs <eps> <PROG> <ENV> <VEC>                      -- per-leaf Σ_i |c_i||J_ij| (scale of the round-off of c @ J)
     c04.fd   <eps> <PROG> <ENV> <VEC> <outkind> <leaf>      -- true left-perturbation gradient of leaf by central
                                                              differences of the model's forward pass (192 bit)
     PROG  := <ntok> tok…      tok := L<i> | U:<Exp|Log|Inv|Matrix>:<g> | B:<Mul|Act|Act4|Adj|AdjT|Jinvp>:<g>   (prefix order)
@@ -298,6 +299,29 @@ def opsC04 : List (String × Handler) := [
       let as := (List.range env.length).map fun i => grad (env.getD i []).length i csAbs
       let cm := cotMax dJpure eps env p c
       return fmt (gs.flatten ++ as.flatten ++ [cm])
+    | [] => throw "arity"),
+  -- c04.jabs <eps> PROG ENV VEC : per-leaf Σ_i |c_i|·|J_ij| (J = Jacobian of the whole program as the model's reverse sweep
+  -- gives it, one sweep per output slot) — the natural scale of the round-off of `c @ J`, free of cancellation between
+  -- the terms of the product
+  ("c04.jabs", fun ts => do
+    match ts with
+    | e :: rest =>
+      let eps ← num e
+      let (p, r) ← parseProgN rest
+      let (lv, r) ← parseEnv r
+      let (c, r) ← parseVec r
+      if !r.isEmpty then throw "trailing"
+      let env := lv.map (·.2)
+      let n := c.length
+      let mut acc : List (List B) := env.map fun x => x.map fun _ => BigF.zero
+      for i in List.range n do
+        let ci := BigF.abs (AD.nth c i)
+        if !(BigF.isZero ci) then
+          let cot := (List.range n).map fun j => if j == i then BigF.one else BigF.zero
+          let cs := backprop dJpure eps env p cot
+          let gs := (List.range env.length).map fun l => grad (env.getD l []).length l cs
+          acc := List.zipWith (fun a g => List.zipWith (fun x y => x + ci * BigF.abs y) a g) acc gs
+      return fmt acc.flatten
     | [] => throw "arity"),
   ("c04.fd", fun ts => do
     match ts with
